@@ -8,6 +8,7 @@ from contracts.optimize import LOG_METHODS as _LM      # noqa: E402
 FUNCTIONS += [f"Optimize.{m}@log-aligned" for m in _LM]
 RAC = "rac/c15.py"
 RAC_BUDGET = {"quick": 60, "thorough": 900}
+RAC_MIN = {"quick": 160, "thorough": 160}      # fewer run-time evaluations than this = the harness skipped its work: checker broken, not "held"
 DESIGN_REF = "DESIGN.md section 4, C15"
 TECHNIQUE = "contract-based deductive verification of the take_best / starting-row / restore blocks of Optimize.step and Optimize.reload (pyvc block contracts over the log's penalty column; z3) and of the class invariant 'all log columns have the same length on every normal and exceptional exit' over every Optimize method that touches the log (pyvc column-alignment engine) + run-time contracts: every row of every log reloaded and re-evaluated independently"
 TRUSTED = ["floats are treated as reals (DESIGN 2.3(1)); every 'up to rounding' clause is run-time only", 'numpy-lite model of pyvc/num_engine.py (vectors as length + array, in-place scaling as a scalar factor, np.abs/argmin/all, zip/enumerate/range) and, for element-wise numpy code, the pointwise abstraction of pyvc/pointwise_engine.py', 'numpy / LAPACK / scipy themselves', 'z3 (NRA/LRA + quantifiers), cvc5']
